@@ -164,6 +164,10 @@ impl Lexicon {
                         }
                     }
                     record_end_pos += nin;
+                    // The input ended right after a comma: no record terminator was consumed.
+                    if record_end && bytes.is_empty() {
+                        features_len += 1;
+                    }
                     record_end
                 }
                 ReadFieldResult::End => break,
